@@ -1541,11 +1541,12 @@ void eval_instruction (const char *p) {
                     }
                   else /* if (char_len == 1) or any invalid utf-8 sequence */
                     {
-                      char c = *((sp - 1)->u.lvalue_byte)++;
+                      unsigned char c = *((sp - 1)->u.lvalue_byte)++;
                       free_svalue (sp->u.lvalue, "foreach-string");
                       sp->u.lvalue->type = T_NUMBER;
                       sp->u.lvalue->subtype = 0;
-                      sp->u.lvalue->u.number = c;
+                      sp->u.lvalue->u.number = c;	/* same value as s[i] */
+                      char_len = 1;	/* one byte was consumed, also for an invalid sequence */
                     }
                   mbtowc (NULL, NULL, 0); /* reset conversion state */
                   /* Decrement bytes remaining and continue loop */
